@@ -8,7 +8,10 @@ Local Open Scope N_scope.
 (* unicode.IsGraphic restricted to the harness alphabet (the harness re-validates this table, is_control and is_space
    against Go's unicode package on every run) *)
 Definition graphic_tbl (r : N) : bool := negb (is_control r) && negb (memN r [173; 8203; 8206; 8207; 8232; 8233; 65279]).
-Definition the_cfg : cfg := fixed graphic_tbl.
+(* the repaired importer; whether the simulated GitLab sends X-Total-Pages is part of the case *)
+Definition cfg_of (totals : bool) : cfg := fixed graphic_tbl totals.
+(* for the text rules only (validity of operations and identities), which do not depend on the paging *)
+Definition the_cfg : cfg := cfg_of true.
 
 (* ---- what is observed of one import run ---- *)
 Record robs := mkrobs { r_res : list res;              (* ImportResult stream without the error results *)
@@ -23,6 +26,7 @@ Record round := mkround { rd_snap : nat; rd_full : bool; rd_now : N }.
 Record case := mkcase { c_page : nat; c_snaps : list tracker; c_rounds : list round;
                         c_clean : list robs;            (* one observation per round, no failure injected *)
                         c_faults : list fexp;           (* rounds < f_round clean, round f_round with f_req failing, then the same round again *)
+                        c_sends_totals : bool;          (* the simulated GitLab sends X-Total and X-Total-Pages *)
                         c_stable : bool }.              (* operations already stored were never changed; replaying the prefix gave the same observations *)
 
 (* ---- equality tests ---- *)
@@ -87,7 +91,7 @@ Definition snap_of (c : case) (k : nat) : tracker := nth k (c_snaps c) empty_tra
 
 Definition model_round (c : case) (rd : round) (fault : option req) (st : mstate) : outcome :=
   let '(idents, bugs, cur) := st in
-  run_round the_cfg (snap_of c (rd_snap rd)) (c_page c) (rd_full rd) (rd_now rd) fault idents bugs cur.
+  run_round (cfg_of (c_sends_totals c)) (snap_of c (rd_snap rd)) (c_page c) (rd_full rd) (rd_now rd) fault idents bugs cur.
 Definition next_state (o : outcome) : mstate := (out_idents o, out_bugs o, out_cursor o).
 
 (* states before each round (and after the last one), with the observations of the clean rounds *)
@@ -176,6 +180,11 @@ Definition opclass (o : op) : option N :=
 Definition triple_eqb (a b : N * N * N) : bool :=
   let '(x, y, z) := a in let '(x', y', z') := b in (x =? x') && (y =? y') && (z =? z').
 
+(* a label event whose label was deleted ("label": null) or has a name without any visible character: there is no label
+   that an operation could carry *)
+Definition names_no_label (e : event) : bool :=
+  match e with ELabel _ => text_empty graphic_tbl (label_name e) | _ => false end.
+
 (* events of t that t0 does not have, of the kinds the importer turns into an operation carrying their id *)
 Definition new_events (t0 t : tracker) : list (N * N * N) :=
   flat_map (fun i =>
@@ -183,7 +192,9 @@ Definition new_events (t0 t : tracker) : list (N * N * N) :=
     let evs := map ENote (filter (fun n => negb (memN (n_id n) (map n_id (notes_of i0)))) (i_notes i)) ++
                map ELabel (filter (fun l => negb (memN (l_id l) (map l_id (labels_of i0)))) (i_labels i)) ++
                map EState (filter (fun s => negb (memN (s_id s) (map s_id (states_of i0)))) (i_states i)) in
-    flat_map (fun e => match kclass (ev_kind e) with Some k => [(i_iid i, ev_id e, k)] | None => [] end) evs) (t_issues t).
+    flat_map (fun e => match kclass (ev_kind e) with
+                       | Some k => if names_no_label e then [] else [(i_iid i, ev_id e, k)]
+                       | None => [] end) evs) (t_issues t).
 Definition new_ops (d : list (N * list op)) : list (N * N * N) :=
   flat_map (fun x => flat_map (fun o => match o_gid o, opclass o with Some g, Some k => [(fst x, g, k)] | _, _ => [] end) (snd x)) d.
 Definition new_bugs (d : list (N * list op)) : list N :=
@@ -242,16 +253,39 @@ Definition incr_round (t0 t : tracker) (before after : istate) (o : robs) : bool
                     let old := length (ops_of (i_iid i) (snd before)) in
                     edits_ok i all old (length all - old) && texts_ok i all) (t_issues t).
 
-(* demanded of the rounds up to the first one that relayed an error (unknown system notes, deleted users, rejected texts
-   make the importer report errors: such histories are left to the idempotence and resume clauses) *)
+(* A tracker is plain when nothing in it excuses an import error of a run in which no request failed: every user that is
+   referred to can be fetched and has a visible name or login (the id 0, "user": null, stands for a deleted user and needs
+   no fetching), every event is of a kind the importer knows, every title-change note holds a new title of which something
+   is left, and the ids of an issue are not shared (the known finding F-C16-shared-id). Whatever the texts are. *)
+Definition user_fine (u : user) : bool := negb (u_gone u) && ident_valid the_cfg u.
+Definition uid_fine (t : tracker) (uid : N) : bool :=
+  (uid =? 0) || match find_user (t_users t) uid with Some u => user_fine u | None => false end.
+Definition event_plain (t : tracker) (e : event) : bool :=
+  uid_fine t (ev_user e) &&
+  match ev_kind e with
+  | KUnknown => false
+  | KTitle => match new_title (note_body e) with Some x => negb (text_eqb (cleanup1 x) []) | None => false end
+  | _ => true
+  end.
+Fixpoint nodupN (l : list N) : bool := match l with [] => true | x :: t => negb (memN x t) && nodupN t end.
+Definition issue_plain (t : tracker) (i : issue) : bool :=
+  negb (i_author i =? 0) && uid_fine t (i_author i) &&
+  forallb (event_plain t) (map ENote (i_notes i) ++ map ELabel (i_labels i) ++ map EState (i_states i)) &&
+  nodupN (i_iid i :: map n_id (i_notes i) ++ map l_id (i_labels i) ++ map s_id (i_states i)).
+Definition plain_tracker (t : tracker) : bool := forallb (issue_plain t) (t_issues t).
+
+(* demanded of the rounds up to the first one that relayed an error, that one included when its tracker is plain: whatever
+   text the tracker holds, exactly the new events are imported. (On a tracker that is not plain - unknown system notes,
+   users that cannot be fetched - the importer reports errors at every run: such histories are left to the idempotence
+   and resume clauses.) *)
 Fixpoint incremental_ok (c : case) (rds : list round) (os : list robs) (sts : list istate) (curs : list (option N)) (prev : tracker) : bool :=
   match rds, os, sts, curs with
   | rd :: rt, o :: ot, before :: ((after :: _) as st'), cur :: ct =>
       let t := snap_of c (rd_snap rd) in
-      if Nat.ltb 0 (r_nerr o) then true
-      else (if ids_subset prev t && covered (if rd_full rd then None else cur) t
-            then incr_round prev t before after o else true) &&
-           incremental_ok c rt ot st' ct t
+      let this := if ids_subset prev t && covered (if rd_full rd then None else cur) t
+                  then incr_round prev t before after o else true in
+      if Nat.ltb 0 (r_nerr o) then (if plain_tracker t then this else true)
+      else this && incremental_ok c rt ot st' ct t
   | _, _, _, _ => true
   end.
 
@@ -317,6 +351,7 @@ Definition explain (c : case) :=
    ("cursor"%string, forallb obs_cursor (c_clean c) && forallb (fun f => obs_cursor (f_fault f) && obs_cursor (f_recover f)) (c_faults c)),
    ("idempotent"%string, idempotent_ok (c_rounds c) (c_clean c) None),
    ("incremental"%string, incremental_ok c (c_rounds c) (c_clean c) sts curs empty_tracker),
+   ("plain_snapshots"%string, map plain_tracker (c_snaps c)),
    ("resume"%string, map (resume_one sts) (c_faults c)),
    ("model_clean_agrees"%string, map (fun p => let '((_, m, completed), i) := p in robs_agree completed m i) (combine mc (c_clean c))),
    ("model_fault_agrees"%string, map (fault_agrees c mc) (c_faults c)),
